@@ -5,7 +5,7 @@ set -u
 git -C /repo apply "$1" || exit 2
 cd /verif
 t0=$(date +%s)
-/venv/bin/python -m vf "$2" --tier "${3:-quick}" > /tmp/trypatch_$2.out 2>&1
+VF_OUT=/tmp/vf_seed_out /venv/bin/python -m vf "$2" --tier "${3:-quick}" > /tmp/trypatch_$2.out 2>&1
 rc=$?
 git -C /repo checkout -- .
 echo "rc=$rc $(( $(date +%s) - t0 ))s"; grep -A2 "^VIOLATION" /tmp/trypatch_$2.out | cut -c1-260 | head -${4:-12}; grep -c "^VIOLATION" /tmp/trypatch_$2.out; grep "HARNESS" /tmp/trypatch_$2.out | head -3 | cut -c1-200; tail -1 /tmp/trypatch_$2.out | cut -c1-250
